@@ -163,31 +163,18 @@ func acquisitionRoundRule(c *Ctx, rule string) {
 		return
 	}
 	rn := shortFn(round)
-	hasDone := func(sel *ssa.Select) bool {
-		for _, st := range sel.States {
-			if s := m.Sym.Of(st.Chan); s.Op == "invoke" && strings.HasSuffix(s.Name, "Context.Done") {
-				return true
-			}
-		}
-		return false
-	}
-	var jitterSel, backoffSel *ssa.Select
+	var jitterSel, backoffSel ssa.Instruction
 	var jitterDur, backoffDur ssa.Value
-	eachInstr(round, func(in ssa.Instruction) {
-		sel, ok := in.(*ssa.Select)
-		if !ok || !sel.Blocking {
-			return
+	done := map[ssa.Instruction]bool{}
+	hasDone := func(in ssa.Instruction) bool { return done[in] }
+	for _, w := range m.waitSites(round) {
+		done[w.At] = w.Done
+		if inLoop(w.At.Block()) {
+			backoffSel, backoffDur = w.At, w.Dur
+		} else {
+			jitterSel, jitterDur = w.At, w.Dur
 		}
-		for _, st := range sel.States {
-			if call, ok := isCallTo(st.Chan, "time.After"); ok {
-				if inLoop(sel.Block()) {
-					backoffSel, backoffDur = sel, call.Call.Args[0]
-				} else {
-					jitterSel, jitterDur = sel, call.Call.Args[0]
-				}
-			}
-		}
-	})
+	}
 	if jitterSel == nil {
 		c.viol(rule, "initial jitter wait in "+rn, firstInstr(round), "no select on time.After before the attempt loop: all followers that see the vacancy create at the same instant")
 	} else {
@@ -216,42 +203,120 @@ func acquisitionRoundRule(c *Ctx, rule string) {
 		c.check(ok, rule, "initial jitter is 10 ms + rand * 90 ms in "+rn, jitterSel, "wait expression %s (required 10000000 + 9e+07 * rand.Float64())", s)
 		c.check(hasDone(jitterSel), rule, "initial jitter wait observes the context in "+rn, jitterSel, "ctx.Done() case: %v", hasDone(jitterSel))
 	}
-	// loop bound
-	boundOK, boundDesc := false, "no `i <= 3` loop test found"
+	// loop bound: the tests of the loop counter against a constant that leave the loop and that
+	// every iteration passes. A test that precedes the attempt admits the attempt for the counter
+	// values it lets through; a test after the attempt admits one more.
+	boundOK, boundDesc := false, "no loop-counter test against a constant leaves the attempt loop"
 	var counter *ssa.Phi
+	var acqCall *ssa.Call
+	eachInstr(round, func(in ssa.Instruction) {
+		if call, ok := in.(*ssa.Call); ok && call.Call.StaticCallee() == acq && inLoop(in.Block()) {
+			acqCall = call
+		}
+	})
+	best := int64(-1)
 	eachInstr(round, func(in ssa.Instruction) {
 		ifi, ok := in.(*ssa.If)
-		if !ok || !inLoop(in.Block()) {
+		if !ok || !inLoop(in.Block()) || acqCall == nil {
 			return
 		}
-		l := m.litOf(ifi.Cond, true, ifi)
-		if l.S.Op == "bin" && (l.S.Name == "<=" || l.S.Name == "<") {
-			if ph, ok := l.S.Args[0].V.(*ssa.Phi); ok {
-				if k, isC := l.S.Args[1].ConstInt(); isC {
-					// exits the loop on the false edge
-					limit := k
-					if l.S.Name == "<" {
-						limit = k - 1
-					}
-					start, step := int64(-1), int64(-1)
-					for i, e := range ph.Edges {
-						if n, isC := constInt(e); isC && !inLoopFrom(ph.Block().Preds[i], ph.Block()) {
-							start = n
-						}
-						if bo, ok := e.(*ssa.BinOp); ok && bo.Op == token.ADD && bo.X == ssa.Value(ph) {
-							if n, isC := constInt(bo.Y); isC {
-								step = n
-							}
-						}
-					}
-					if start >= 0 && step > 0 {
-						counter = ph
-						trips := (limit-start)/step + 1
-						boundDesc = fmt.Sprintf("counter from %d step %d while <= %d: %d attempts", start, step, limit, trips)
-						boundOK = trips == 4 && step == 1 && start == 0
-					}
+		var loop []*ssa.BasicBlock
+		for _, l := range cfgLoops(round) {
+			for _, b := range l {
+				if b == acqCall.Block() {
+					loop = l
 				}
 			}
+		}
+		inSet := map[*ssa.BasicBlock]bool{}
+		for _, b := range loop {
+			inSet[b] = true
+		}
+		if !inSet[in.Block()] {
+			return
+		}
+		// which edge leaves the loop
+		exit := -1
+		for i, s := range in.Block().Succs {
+			if !inSet[s] {
+				if exit >= 0 {
+					return
+				}
+				exit = i
+			}
+		}
+		if exit < 0 {
+			return
+		}
+		// every iteration passes the test: it dominates every source of a back edge
+		head := loop[0]
+		for _, p := range head.Preds {
+			if inSet[p] && !in.Block().Dominates(p) && in.Block() != p {
+				return
+			}
+		}
+		// literal that holds when the loop continues
+		l := m.litOf(ifi.Cond, exit != 0, ifi)
+		if l.S.Op != "bin" || len(l.S.Args) != 2 {
+			return
+		}
+		var ph *ssa.Phi
+		var k int64
+		phLeft := false
+		for i := 0; i < 2; i++ {
+			if p, ok := l.S.Args[i].V.(*ssa.Phi); ok && p.Block() == head {
+				if n, isC := l.S.Args[1-i].ConstInt(); isC {
+					ph, k, phLeft = p, n, i == 0
+				}
+			}
+		}
+		if ph == nil {
+			return
+		}
+		start, step := int64(-1), int64(-1)
+		for i, e := range ph.Edges {
+			if n, isC := constInt(e); isC && !inLoopFrom(ph.Block().Preds[i], ph.Block()) {
+				start = n
+			}
+			if bo, ok := e.(*ssa.BinOp); ok && bo.Op == token.ADD && bo.X == ssa.Value(ph) {
+				if n, isC := constInt(bo.Y); isC {
+					step = n
+				}
+			}
+		}
+		if start < 0 || step <= 0 {
+			return
+		}
+		// last counter value for which the loop continues past this test
+		last := int64(-1)
+		switch {
+		case l.Truth && phLeft && l.S.Name == "<=":
+			last = k
+		case l.Truth && phLeft && l.S.Name == "<":
+			last = k - 1
+		case !l.Truth && !phLeft && l.S.Name == "<": // !(k < i)
+			last = k
+		case !l.Truth && !phLeft && l.S.Name == "<=": // !(k <= i)
+			last = k - 1
+		case !l.Truth && l.S.Name == "==" && k >= start && (k-start)%step == 0:
+			last = k - step
+		default:
+			return
+		}
+		if last < start-step {
+			last = start - step
+		}
+		trips := (last-start)/step + 1
+		where := "before the attempt"
+		if !(in.Block().Dominates(acqCall.Block()) && in.Block() != acqCall.Block()) {
+			trips++
+			where = "after the attempt"
+		}
+		if best < 0 || trips < best {
+			best = trips
+			counter = ph
+			boundDesc = fmt.Sprintf("counter from %d step %d, loop left at %s unless %s (%s): %d attempts", start, step, c.posOf(ifi), l, where, trips)
+			boundOK = trips == 4 && step == 1 && start == 0
 		}
 	})
 	c.check(boundOK, rule, "at most four attempts per round in "+rn, firstInstr(round), "%s (required 4)", boundDesc)
